@@ -121,6 +121,8 @@ def check_run(case, ev):
     cls = ["form-" + l["form"] for l in case["lines"]] + ["class-" + c for c in classes] + ["lines%d" % len(case["lines"])]
     if any(len(l["blocks"]) > 1 for l in case["lines"]):
         cls.append("two-slot-line")
+    if case.get("undo"):
+        cls.append("with-undo")
     if len(set(b for l in case["lines"] for b in l["blocks"])) < sum(len(l["blocks"]) for l in case["lines"]):
         cls.append("repeated-secret")
     ev.case(sig if nt else case, nt, cls)
@@ -251,12 +253,22 @@ REPLAY = {"runs": check_run, "standalone": check_standalone, "longline": check_l
 # ---------------------------------------------------------------- generators
 
 
+def _no_address(form):
+    return not any(ch.isdigit() and ("." in h or ":" in h) for h in form.heads + form.trails for ch in h) and not any("1.1.1.1" in x or "1.2.3.4" in x or "::" in x or "10.0.0.1" in x for x in form.heads + form.trails)
+
+
+_FORMS_NOADDR = [f for f in S.FORMS if _no_address(f)]
+
+
 @st.composite
 def _run_case(draw, max_lines=6):
     lines = []
     blocks = []  # dict(cls, kw, form_ok)
+    # password anonymization combined with --undo (the IP stage then runs in the undo direction):
+    # only line forms without addresses in their fixed text, so the context oracle still applies
+    undo = draw(st.integers(0, 5)) == 0
     for _ in range(draw(st.integers(1, max_lines))):
-        form = draw(st.sampled_from(S.FORMS))
+        form = draw(st.sampled_from(_FORMS_NOADDR if undo else S.FORMS))
         bl = []
         for _s in range(form.slots):
             reuse = [i for i, b in enumerate(blocks) if b["cls"] in form.classes and b["kw"] == form.text_kw and form.reject is None and not b["rej"] and i not in bl]
@@ -304,7 +316,7 @@ def _run_case(draw, max_lines=6):
                         v, ident = v2, v2  # a lone backslash is an ordinary character of the secret
             ids.add(ident)
             values[which].append(v)
-    return {"salt": draw(st.sampled_from(["Tsalt", "", "s", "_x", "QzF"])), "lines": lines, "classes": [b["cls"] for b in blocks], "values": values}
+    return {"salt": draw(st.sampled_from(["Tsalt", "", "s", "_x", "QzF"])), "lines": lines, "classes": [b["cls"] for b in blocks], "values": values, "undo": undo}
 
 
 _hash_token = st.one_of(S.md5_value(), S.j9_value())
